@@ -198,3 +198,55 @@ Check C16_timestampsdirect_listing_exact.
 Print Assumptions C16_timestampsdirect_listing_exact.
 Check C16_timestampsdirect_listing_no_current.
 Print Assumptions C16_timestampsdirect_listing_no_current.
+
+Require Import FL.Flw.NumDCleanupStep FL.Flw.NumDCleanupRun FL.Flw.NumDCleanup FL.Flw.NumDCleanupNames.
+(* NumbersDirect naming WITH a cleanup strategy (Flw/NumDCleanupNames.v): every file of every history - the numbered files and
+   the archives r<i>.gz that the cleanup makes - is named as documented: after the stop, at every point, in every snapshot.
+   not_gz c implies the side condition dside of the run theorems, so no side condition on the view appears *)
+Theorem C16_numbersdirect_cleanup_names_documented c crit k t0 off ops :
+  numdkcfg c crit k -> not_gz c -> Forall basic_op ops ->
+  all_documented c (wfs (s_w (fst (run (sys0 t0 off) (OStart c :: ops ++ [OStop]))))).
+Proof. exact (numbersdirect_cleanup_names_documented c crit k t0 off ops). Qed.
+
+Theorem C16_numbersdirect_cleanup_names_documented_always c crit k t0 off ops :
+  numdkcfg c crit k -> not_gz c -> Forall basic_op ops ->
+  all_documented c (wfs (s_w (fst (run (sys0 t0 off) (OStart c :: ops))))).
+Proof. exact (numbersdirect_cleanup_names_documented_always c crit k t0 off ops). Qed.
+
+Theorem C16_numbersdirect_cleanup_snapshots_documented c crit k t0 off ops :
+  numdkcfg c crit k -> not_gz c -> Forall basic_op ops ->
+  Forall (snap_documented c) (snd (run (sys0 t0 off) (OStart c :: ops))).
+Proof. exact (numbersdirect_cleanup_snapshots_documented c crit k t0 off ops). Qed.
+
+(* ... and existing_log_files returns exactly the existing family files the selector asks for, archives included; there is no
+   rCURRENT file in this naming: with_r_current and an admissible custom current infix select nothing *)
+Theorem C16_numbersdirect_cleanup_listing_exact c crit k t0 off ops sel :
+  numdkcfg c crit k -> not_gz c -> Forall basic_op ops -> custom_ok_d sel ->
+  let x := fst (run (sys0 t0 off) (OStart c :: ops)) in
+  exists l, step x (OQuery sel) = (x, ObsList 0%N l)
+            /\ oracle_listing sel c (snap_of x) l = true
+            /\ sort_names l = expected_listing sel c (snap_of x).
+Proof. exact (numbersdirect_cleanup_listing_exact c crit k t0 off ops sel). Qed.
+
+Theorem C16_numbersdirect_cleanup_listing_no_current c crit k t0 off ops sel :
+  numdkcfg c crit k -> not_gz c -> Forall basic_op ops -> custom_ok_d sel ->
+  let x := fst (run (sys0 t0 off) (OStart c :: ops)) in
+  exists l, step x (OQuery sel) = (x, ObsList 0%N l) /\ step x (OQuery (no_current sel)) = (x, ObsList 0%N l)
+            /\ (sel_plain sel = false -> sel_gz sel = false -> l = []).
+Proof. exact (numbersdirect_cleanup_listing_no_current c crit k t0 off ops sel). Qed.
+
+Check C16_numbersdirect_cleanup_names_documented.
+Print Assumptions C16_numbersdirect_cleanup_names_documented.
+Check C16_numbersdirect_cleanup_names_documented_always.
+Print Assumptions C16_numbersdirect_cleanup_names_documented_always.
+Check C16_numbersdirect_cleanup_snapshots_documented.
+Print Assumptions C16_numbersdirect_cleanup_snapshots_documented.
+Check C16_numbersdirect_cleanup_listing_exact.
+Print Assumptions C16_numbersdirect_cleanup_listing_exact.
+Check C16_numbersdirect_cleanup_listing_no_current.
+Print Assumptions C16_numbersdirect_cleanup_listing_no_current.
+(* non-vacuity: NumDCleanupNames.numbersdirect_cleanup_names_documented_instance, listing_instance_computed_dk (two archives, a
+   closed plain file and the file being written), listing_instance_dk; the hypotheses are needed: custom_number_infix_listed_dk,
+   gz_suffix_not_documented_dk *)
+Check listing_instance_computed_dk.
+Check gz_suffix_not_documented_dk.
